@@ -5,6 +5,9 @@
 //   output:     ok <stats> [| <events> | <observations>]      or      FAIL op#<i> <why> [| ...]
 // Compile with -DPART=0 (list flist map set), -DPART=1 (mmap umap uset direct) or no PART (everything).
 #include "c20_common.h"
+#include <csignal>
+#include <unistd.h>
+#include <sys/wait.h>
 
 typedef int64_t K;
 enum Kind { LIST, FLIST, MAP, SET, MMAP, UMAP, USET };
@@ -86,7 +89,7 @@ template<int KIND, template<class> class A> static std::string run_container(std
 	const int NS = 3;
 	std::unique_ptr<C> s[NS]; std::unique_ptr<T> t[NS];
 	std::string op; int idx = 0; std::string fail;
-	size_t max_nodes = 0, n_ops = 0;
+	size_t max_nodes = 0, n_ops = 0, n_failed = 0;
 	auto failf = [&](const std::string& m) { if (fail.empty()) fail = "FAIL op#" + std::to_string(idx) + " " + op + ": " + m; };
 	while (fail.empty() && (is >> op))
 	{
@@ -97,6 +100,13 @@ template<int KIND, template<class> class A> static std::string run_container(std
 			if (op == "n") { is >> a; s[a].reset(); t[a].reset(); s[a].reset(O::template make<C>(typename C::allocator_type(Base(BASE_ID)))); t[a].reset(O::template make<T>(typename T::allocator_type())); }
 			else if (op == "x") { is >> a; s[a].reset(); t[a].reset(); }
 			else if (op == "i") { is >> a >> k >> aux; if (s[a]) { O::ins(*s[a], k, aux); O::ins(*t[a], k, aux); } }
+			else if (op == "fi") { int kth = 0; is >> a >> k >> aux >> kth; if (s[a]) {
+				// insertion during which the kth base allocation throws: the container must be unchanged (twin: no insertion)
+				bool failed = false;
+				kit::W().arm(kth, -1, -1);
+				try { O::ins(*s[a], k, aux); } catch (const std::bad_alloc&) { failed = true; }
+				kit::W().disarm();
+				if (!failed) O::ins(*t[a], k, aux); else ++n_failed; } }
 			else if (op == "e") { is >> a >> k >> aux; if (s[a]) { O::era(*s[a], k, aux); O::era(*t[a], k, aux); } }
 			else if (op == "f") { is >> a >> k; if (s[a] && O::fnd(*s[a], k) != O::fnd(*t[a], k)) failf("find differs from twin"); }
 			else if (op == "c") { is >> a; if (s[a]) { s[a]->clear(); t[a]->clear(); } }
@@ -113,6 +123,8 @@ template<int KIND, template<class> class A> static std::string run_container(std
 				Pool* pb0 = pooled ? pool_of(*s[b]) : nullptr;
 				std::unique_ptr<C> p(new C(std::move(*s[b]))); std::unique_ptr<T> q(new T(std::move(*t[b])));
 				if (pooled && pool_of(*p) != pb0) failf("move-constructed container does not carry the pool");
+				if (pooled && pool_of(*s[b]) != pb0) failf("moved-from container lost its pool (allocator move construction must leave the source unchanged)");
+				if (pooled && fail.empty() && size_t(s[b]->get_allocator().mMemPool.use_count()) < 3) failf("use_count after container move construction: source and target must both own the pool");
 				s[b]->clear(); t[b]->clear();
 				s[a] = std::move(p); t[a] = std::move(q); } }
 			else if (op == "ma") { is >> a >> b; if (s[a] && s[b] && a != b) {
@@ -133,6 +145,7 @@ template<int KIND, template<class> class A> static std::string run_container(std
 			else { failf("unknown op"); break; }
 		}
 		catch (const std::exception& e) { failf(std::string("exception ") + e.what()); }
+		if (fail.empty() && !G().fatal.empty()) failf(G().fatal);
 		if (!fail.empty()) break;
 		// ---- the oracle, after every operation ----
 		std::map<Pool*, size_t> nodes; size_t alive = 0, total = 0;
@@ -160,7 +173,74 @@ template<int KIND, template<class> class A> static std::string run_container(std
 		while (!kit::W().blocks.empty()) { auto it = kit::W().blocks.begin(); kit::raw_deallocate(it->second.mgr, it->first, it->second.size); }  // do not poison later cases
 	}
 	if (!fail.empty()) return fail;
-	return "ok ops=" + std::to_string(n_ops) + " maxnodes=" + std::to_string(max_nodes) + " basealloc=" + std::to_string(kit::W().n_alloc);
+	return "ok ops=" + std::to_string(n_ops) + " maxnodes=" + std::to_string(max_nodes) + " basealloc=" + std::to_string(kit::W().n_alloc)
+		+ " failed=" + std::to_string(n_failed);
+}
+
+// ---- two containers with DIFFERENT node sizes sharing one pool through the converting allocator constructor --------
+// ops: li k aux | le k aux | lc | si k | se k | sc | lfi k kth | sfi k kth   (prop.py keeps H: one of the two is empty while the other inserts)
+template<template<class> class A> static std::string run_duo(std::istringstream& is)
+{
+	typedef std::list<K, A<K>> L; typedef std::set<K, std::less<K>, A<K>> S;
+	typedef Ops<LIST> OL; typedef Ops<SET> OS;
+	std::string fail, op; int idx = 0; size_t n_ops = 0, max_nodes = 0, n_failed = 0;
+	{
+		L l{ A<K>(Base(BASE_ID)) }; std::list<K> lt;
+		S s{ std::less<K>(), A<K>(l.get_allocator()) }; std::set<K> st;
+		Pool* pool = l.get_allocator().mMemPool.get();
+		if (s.get_allocator().mMemPool.get() != pool) fail = "FAIL converting constructor does not share the pool";
+		while (fail.empty() && (is >> op))
+		{
+			++idx; ++n_ops; long k = 0, aux = 0; int kth = 0;
+			if (op == "li") { is >> k >> aux; OL::ins(l, k, aux); OL::ins(lt, k, aux); }
+			else if (op == "le") { is >> k >> aux; OL::era(l, k, aux); OL::era(lt, k, aux); }
+			else if (op == "lc") { l.clear(); lt.clear(); }
+			else if (op == "si") { is >> k; s.insert(k); st.insert(k); }
+			else if (op == "se") { is >> k; s.erase(k); st.erase(k); }
+			else if (op == "sc") { s.clear(); st.clear(); }
+			else if (op == "lfi" || op == "sfi")
+			{
+				is >> k >> kth; bool failed = false; kit::W().arm(kth, -1, -1);
+				try { if (op == "lfi") l.push_back(k); else s.insert(k); } catch (const std::bad_alloc&) { failed = true; }
+				kit::W().disarm();
+				if (failed) ++n_failed; else if (op == "lfi") lt.push_back(k); else st.insert(k);
+			}
+			else { fail = "FAIL unknown op " + op; break; }
+			if (!G().fatal.empty()) fail = "FAIL op#" + std::to_string(idx) + " " + op + ": " + G().fatal;
+			if (OL::contents(l) != OL::contents(lt) || OS::contents(s) != OS::contents(st)) fail = "FAIL op#" + std::to_string(idx) + " " + op + ": contents differ from the std::allocator twins";
+			size_t nodes = l.size() + s.size(); max_nodes = std::max(max_nodes, nodes);
+			if (pool->GetAllocateCount() != nodes) fail = "FAIL op#" + std::to_string(idx) + " " + op + ": pool GetAllocateCount " + std::to_string(pool->GetAllocateCount()) + " != live nodes " + std::to_string(nodes);
+			if (!kit::W().errors.empty()) fail = "FAIL op#" + std::to_string(idx) + " " + op + ": base allocator protocol: " + kit::W().errors[0];
+		}
+	}
+	if (fail.empty() && !kit::W().errors.empty()) fail = "FAIL end: base allocator protocol: " + kit::W().errors[0];
+	if (fail.empty() && kit::W().live_blocks() != 0) fail = "FAIL end: containers destroyed but " + std::to_string(kit::W().live_blocks()) + " base blocks outstanding";
+	if (!fail.empty()) return fail;
+	return "ok ops=" + std::to_string(n_ops) + " maxnodes=" + std::to_string(max_nodes) + " basealloc=" + std::to_string(kit::W().n_alloc) + " failed=" + std::to_string(n_failed);
+}
+
+// ---- the re-targeting statement of allocate() (pool_allocator.h:119) on a real MemPool with a NON-EMPTY cache -------
+// case: retarget s1 a1 k s2 a2 ; output (same format as the model driver): cached_before count bs al cached_after consistent
+static std::string run_retarget(std::istringstream& is)
+{
+	size_t s1, a1, k, s2, a2; is >> s1 >> a1 >> k >> s2 >> a2;
+	typedef momo::MemManagerStd<Base> MM;
+	std::string out;
+	{
+		Pool pool(momo::MemPoolParams<>(s1, a1), MM(Base(BASE_ID)));
+		std::vector<void*> bl;
+		for (size_t i = 0; i < k; ++i) bl.push_back(pool.Allocate<void>());
+		for (void* b : bl) pool.Deallocate(b);
+		out = std::to_string(pool.mCachedCount) + " ";
+		pool = Pool(momo::MemPoolParams<>(s2, a2), MM(Base(BASE_ID)));     // exactly line 119
+		bool consistent = (pool.mCachedCount == 0) == (pool.mCacheHead == nullptr) && pool.mFreeBufferHead == nullptr;
+		out += std::to_string(pool.GetAllocateCount()) + " " + std::to_string(pool.GetBlockSize()) + " " + std::to_string(pool.GetBlockAlignment())
+			+ " " + std::to_string(pool.mCachedCount) + " " + (consistent ? "1" : "0");
+		if (consistent) { void* b = pool.Allocate<void>(); pool.Deallocate(b); }
+		else { pool.mCachedCount = 0; pool.mCacheHead = nullptr; }            // keep the destructor from crashing
+	}
+	if (kit::W().live_blocks() != 0 || !kit::W().errors.empty()) out += " LEAK";
+	return out;
 }
 
 // ---- direct allocator-level scripts ------------------------------------------------------------------
@@ -170,6 +250,7 @@ struct HBase
 	virtual ~HBase() {}
 	virtual int type() const = 0;
 	virtual HBase* copy() const = 0;
+	virtual HBase* move_from() = 0;
 	virtual HBase* rebind(int ty) const = 0;
 	virtual HBase* socc() const = 0;
 	virtual void assign(const HBase& o) = 0;
@@ -186,6 +267,7 @@ template<> struct TypeOf<5> { typedef Blob<32, 16> type; };
 template<> struct TypeOf<6> { typedef Blob<3, 1> type; };
 template<> struct TypeOf<7> { typedef Blob<48, 16> type; };
 static const int NTYPES = 8;
+struct MoveTag {};
 template<int TY> struct HImpl;
 template<class Src> static HBase* make_rebound(const Src& src, int ty);
 template<int TY> struct HImpl : HBase
@@ -195,8 +277,10 @@ template<int TY> struct HImpl : HBase
 	HImpl() : a(Base(BASE_ID)) {}
 	template<class X> explicit HImpl(const X& x) : a(x) {}
 	HImpl(SoccTag, const Mon<T>& x) : a(x.select_on_container_copy_construction()) {}
+	HImpl(MoveTag, Mon<T>&& x) : a(std::move(x)) {}
 	int type() const override { return TY; }
 	HBase* copy() const override { return new HImpl<TY>(a); }
+	HBase* move_from() override { return new HImpl<TY>(MoveTag(), std::move(a)); }
 	HBase* rebind(int ty) const override { return make_rebound(a, ty); }
 	HBase* socc() const override { return new HImpl<TY>(SoccTag(), a); }
 	void assign(const HBase& o) override { a = static_cast<const HImpl<TY>&>(o).a; }
@@ -226,12 +310,21 @@ static HBase* make_new(int ty)
 static std::string run_direct(std::istringstream& is)
 {
 	std::vector<std::unique_ptr<HBase>> hs; std::vector<std::pair<void*, size_t>> bl;
-	std::string op; size_t n_ops = 0;
-	while (is >> op)
+	std::string op; size_t n_ops = 0, n_failed = 0;
+	while (G().fatal.empty() && (is >> op))
 	{
 		++n_ops; size_t a = 0, b = 0; int ty = 0;
 		if (op == "N") { is >> ty; hs.emplace_back(make_new(ty)); }
 		else if (op == "C") { is >> a; hs.emplace_back(hs[a]->copy()); }
+		else if (op == "M") { is >> a; hs.emplace_back(hs[a]->move_from()); }
+		else if (op == "F")
+		{	// allocate(n) during which the k-th base allocation throws; if nothing had to be allocated the block is given back
+			size_t kth; is >> a >> b >> kth; void* q = nullptr;
+			kit::W().arm(long(kth), -1, -1);
+			try { q = hs[a]->alloc(b); } catch (const std::bad_alloc&) { ++n_failed; }
+			kit::W().disarm();
+			if (q != nullptr) hs[a]->dealloc(q, b);
+		}
 		else if (op == "R") { is >> a >> ty; hs.emplace_back(hs[a]->rebind(ty)); }
 		else if (op == "S") { is >> a; hs.emplace_back(hs[a]->socc()); }
 		else if (op == "=") { is >> a >> b; hs[a]->assign(*hs[b]); }
@@ -242,8 +335,13 @@ static std::string run_direct(std::istringstream& is)
 	}
 	for (auto& h : hs) h.reset();
 	Tracer& g = G();
+	if (!g.fatal.empty())
+	{
+		while (!kit::W().blocks.empty()) { auto it = kit::W().blocks.begin(); kit::raw_deallocate(it->second.mgr, it->first, it->second.size); }
+		return "FAIL op#" + std::to_string(n_ops) + " " + op + ": " + g.fatal;
+	}
 	std::string r = "ok ops=" + std::to_string(n_ops) + " hviol=" + std::to_string(g.h_violations) + " misrouted=" + std::to_string(g.misrouted)
-		+ " live=" + std::to_string(kit::W().live_blocks()) + " errors=" + std::to_string(kit::W().errors.size());
+		+ " live=" + std::to_string(kit::W().live_blocks()) + " errors=" + std::to_string(kit::W().errors.size()) + " failed=" + std::to_string(n_failed);
 	// clean up after deliberately H-violating scripts: leaked raw blocks go back to the base allocator
 	while (!kit::W().blocks.empty()) { auto it = kit::W().blocks.begin(); kit::raw_deallocate(it->second.mgr, it->first, it->second.size); }
 	return r;
@@ -259,39 +357,70 @@ template<int KIND> static std::string dispatch(std::istringstream& is, const std
 	return "FAIL unknown allocator " + alloc;
 }
 
+static std::string g_alloc;
+static std::string finish_line(std::string res)
+{
+	Tracer& g = G(); g.on = false;
+	if (g_alloc == "mon")
+		res += " hviol=" + std::to_string(g.h_violations) + " pool=" + std::to_string(g.n_pool) + " raw=" + std::to_string(g.n_raw)
+			+ " reparam=" + std::to_string(g.n_reparam) + " events=" + std::to_string(g.n_events) + " | " + g.events + " | " + g.obs;
+	return res;
+}
+static void on_crash(int sig)
+{	// not async-signal-safe, but the process is lost anyway: report the allocator call in flight and the events so far
+	static bool once = false; if (once) _exit(4); once = true;
+	std::string l = finish_line("CRASH signal=" + std::to_string(sig) + " pending=[" + G().pending + "]") + "\n";
+	ssize_t r = write(1, l.c_str(), l.size()); (void)r;
+	_exit(3);
+}
+
+static std::string run_case(const std::string& line)
+{
+	std::istringstream is(line); std::string kind, alloc; is >> kind;
+	kit::World& w = kit::W();
+	w.errors.clear(); w.log.clear(); w.n_alloc = w.n_dealloc = 0; w.logging = true;
+	Tracer& g = G(); g.reset();
+	std::string res;
+	if (kind == "retarget") { g_alloc = "none"; return run_retarget(is); }
+	if (kind == "direct") { g.on = true; alloc = "mon"; }
+	else { is >> alloc; g.on = (alloc == "mon"); }
+	g_alloc = alloc;
+	if (false) {}
+#if PART != 1
+	else if (kind == "list") res = dispatch<LIST>(is, alloc);
+	else if (kind == "flist") res = dispatch<FLIST>(is, alloc);
+	else if (kind == "map") res = dispatch<MAP>(is, alloc);
+	else if (kind == "set") res = dispatch<SET>(is, alloc);
+#endif
+#if PART != 0
+	else if (kind == "mmap") res = dispatch<MMAP>(is, alloc);
+	else if (kind == "umap") res = dispatch<UMAP>(is, alloc);
+	else if (kind == "uset") res = dispatch<USET>(is, alloc);
+	else if (kind == "direct") res = run_direct(is);
+	else if (kind == "duo") res = (alloc == "mon") ? run_duo<Mon>(is) : run_duo<PA>(is);
+#endif
+	else res = "FAIL unknown kind " + kind;
+	return finish_line(res);
+}
+
+// every case runs in a forked child: a crash of the real code costs one case, and the child reports what it has
 int main()
 {
 	std::string line;
-	kit::W().logging = true;
 	while (std::getline(std::cin, line))
 	{
-		std::istringstream is(line); std::string kind, alloc; is >> kind;
-		kit::World& w = kit::W();
-		w.errors.clear(); w.log.clear(); w.n_alloc = w.n_dealloc = 0;
-		Tracer& g = G(); g.reset();
-		std::string res;
-		if (kind == "direct") { g.on = true; alloc = "mon"; }
-		else { is >> alloc; g.on = (alloc == "mon"); }
-		if (false) {}
-#if PART != 1
-		else if (kind == "list") res = dispatch<LIST>(is, alloc);
-		else if (kind == "flist") res = dispatch<FLIST>(is, alloc);
-		else if (kind == "map") res = dispatch<MAP>(is, alloc);
-		else if (kind == "set") res = dispatch<SET>(is, alloc);
-#endif
-#if PART != 0
-		else if (kind == "mmap") res = dispatch<MMAP>(is, alloc);
-		else if (kind == "umap") res = dispatch<UMAP>(is, alloc);
-		else if (kind == "uset") res = dispatch<USET>(is, alloc);
-		else if (kind == "direct") res = run_direct(is);
-#endif
-		else res = "FAIL unknown kind " + kind;
-		g.on = false;
-		if (alloc == "mon")
-			res += " hviol=" + std::to_string(g.h_violations) + " pool=" + std::to_string(g.n_pool) + " raw=" + std::to_string(g.n_raw)
-				+ " reparam=" + std::to_string(g.n_reparam) + " events=" + std::to_string(g.n_events) + " | " + g.events + " | " + g.obs;
-		w.log.clear();
-		puts(res.c_str());
+		fflush(stdout);
+		pid_t pid = fork();
+		if (pid == 0)
+		{
+			signal(SIGSEGV, on_crash); signal(SIGABRT, on_crash); signal(SIGBUS, on_crash); signal(SIGFPE, on_crash); signal(SIGILL, on_crash);
+			std::string r = run_case(line) + "\n";
+			ssize_t k = write(1, r.c_str(), r.size()); (void)k;
+			_exit(0);
+		}
+		int status = 0; waitpid(pid, &status, 0);
+		bool ok = WIFEXITED(status) && (WEXITSTATUS(status) == 0 || WEXITSTATUS(status) == 3);
+		if (!ok) { printf("CRASH status=%d\n", status); fflush(stdout); }
 	}
 	return 0;
 }
